@@ -93,6 +93,23 @@ theorem lgH_eq (m h : Nat) : lgH m h = Nat.log2 m := by
       · rw [if_neg h2]
   · rw [if_neg h0]
 
+/-- a hint for `⌊log₂ x⌋`: decision tree over the constants `2^1 … 2^31` (exact for `x < 2^32`; being a hint only,
+nothing has to be proved about it) -/
+def lg32 (x : Nat) : Nat :=
+  (cond (Nat.ble 65536 x) (cond (Nat.ble 16777216 x) (cond (Nat.ble 268435456 x) (cond (Nat.ble 1073741824 x)
+  (cond (Nat.ble 2147483648 x) 31 30) (cond (Nat.ble 536870912 x) 29 28)) (cond (Nat.ble 67108864 x) (cond
+  (Nat.ble 134217728 x) 27 26) (cond (Nat.ble 33554432 x) 25 24))) (cond (Nat.ble 1048576 x) (cond (Nat.ble
+  4194304 x) (cond (Nat.ble 8388608 x) 23 22) (cond (Nat.ble 2097152 x) 21 20)) (cond (Nat.ble 262144 x) (cond
+  (Nat.ble 524288 x) 19 18) (cond (Nat.ble 131072 x) 17 16)))) (cond (Nat.ble 256 x) (cond (Nat.ble 4096 x)
+  (cond (Nat.ble 16384 x) (cond (Nat.ble 32768 x) 15 14) (cond (Nat.ble 8192 x) 13 12)) (cond (Nat.ble 1024 x)
+  (cond (Nat.ble 2048 x) 11 10) (cond (Nat.ble 512 x) 9 8))) (cond (Nat.ble 16 x) (cond (Nat.ble 64 x) (cond
+  (Nat.ble 128 x) 7 6) (cond (Nat.ble 32 x) 5 4)) (cond (Nat.ble 4 x) (cond (Nat.ble 8 x) 3 2) (cond (Nat.ble 2
+  x) 1 0)))))
+
+/-- `⌊log₂ m⌋`, cheap for `m < 2^33` -/
+def lgA (m : Nat) : Nat := lgH m (lg32 m)
+theorem lgA_eq (m : Nat) : lgA m = Nat.log2 m := lgH_eq m _
+
 /-- `roundPack false m (B − 1000)`: exponents biased by 1000; `h` is a hint for `⌊log₂ m⌋` (any value is
 correct, a good one is cheaper) -/
 def rpH (m B h : Nat) : Nat :=
@@ -176,11 +193,11 @@ theorem posfin2_iff (a b : Nat) : posfin2 a b = true ↔ a < 0x7F800000 ∧ b < 
 
 /-! ### the operators -/
 
-/-- `n as f32`; `h`: hint for `⌊log₂ n⌋` -/
-def ofNatH (n h : Nat) : Nat := rpH n 1000 h
+/-- `n as f32` -/
+def ofNatR (n : Nat) : Nat := rpH n 1000 (lg32 n)
 
-theorem ofNatH_eq (n h : Nat) : ofNatH n h = ofNat n := by
-  unfold ofNatH ofNat
+theorem ofNatR_eq (n : Nat) : ofNatR n = ofNat n := by
+  unfold ofNatR ofNat
   rw [rpH_eq]; rfl
 
 /-- `a * b` -/
